@@ -173,7 +173,10 @@ pub fn call_api(r: &mut RLN, c: &str, g: &Args, op: &Value) -> CallResult {
 
 pub fn call_ffi(ctx: *mut RLN, c: &str, g: &Args, op: &Value) -> CallResult {
     let (ia, ib) = (buf(&g.a), buf(&g.b));
-    let mut ob = Buffer { ptr: std::ptr::null(), len: 0 };
+    // the caller's output descriptor is NOT fresh: it still designates an earlier result (a caller reusing one Buffer
+    // variable); a successful call must overwrite it whatever the size of its output
+    static STALE: [u8; 7] = *b"\xEEstale\xEE";
+    let mut ob = Buffer { ptr: STALE.as_ptr(), len: STALE.len() };
     // the verdict cell starts with a value that a correct wrapper must overwrite on success and leave alone on failure
     let mut cell: bool = op.get("cell_init").and_then(|x| x.as_bool()).unwrap_or(false);
     let cell_init = cell;
